@@ -120,7 +120,7 @@ def run(ctx):
                 ctx.ok("R09.4", key, "partition %s" % [sorted(p) for p in part])
             else:
                 ctx.violation("R09.4", key, "%s matches Side with the partition %s, which is neither the axis split {Left,Right}/{Top,Bottom} nor the edge split {Left,Bottom}/{Top,Right}" % (g.short, [sorted(p) for p in part]), gb.site(sbi))
-    ctx.floor("R09.4", "side_matches", n_sw, 3)
+    ctx.floor("R09.4", "side_matches", n_sw, 1)
     # BoundBox::side mapping
     bs = [g for g in F.fns.values() if g.id.startswith(PFX + "bbox::") and g.short.endswith("BoundBox::side")]
     if len(bs) != 1:
